@@ -77,6 +77,12 @@ let run_case cid (t : toks) =
                              take k (fun () -> let c = next_nat t in let v = next_q t in (c, v))) in
           if q_interp_ok dist (if kind = "direct" then nat_of_int 1 else nv) vars a s states pm then "1" else "0") in
       Printf.printf "%s CHK %s\n" cid (String.concat " " res) end
+  | "trunc" ->
+    (* thr nr (k (c v)*k)*nr : filter_interp on the implementation's untruncated rows *)
+    let thr = next_q t in
+    let nr = next_int t in
+    let pm = take nr (fun () -> let k = next_int t in take k (fun () -> let c = next_nat t in let v = next_q t in (c, v))) in
+    Printf.printf "%s TRUNC %d %s\n" cid nr (rows_str (q_filter_interp thr pm))
   | _ -> Printf.printf "%s UNSUPPORTED %s\n" cid op
 
 let () =
